@@ -62,8 +62,18 @@ def inject(draw, fn):
                 out += [(blk, i) for i in range(len(blk) + 1)]
             elif s[0] == "if":
                 out += [(s[2], i) for i in range(len(s[2]) + 1)]
+                out += [(s[3], i) for i in range(len(s[3]) + 1)] if s[3] else []
             elif s[0] == "try":
                 out += [(s[1], i) for i in range(len(s[1]) + 1)]
+                # inside the handlers (named or not), the else and the finally blocks: weighted
+                # up, these paths only run when something was raised
+                for h in s[2]:
+                    out += [(h[2], i) for i in range(len(h[2]) + 1)] * 2
+                for blk in (s[3], s[4]):
+                    if blk:
+                        out += [(blk, i) for i in range(len(blk) + 1)]
+            elif s[0] == "with":
+                out += [(s[4], i) for i in range(len(s[4]) + 1)]
         return out
 
     for _ in range(n):
@@ -371,7 +381,63 @@ def check_sequence(xs, mod, rem, K, aud_before, aud_after, rec=None):
                  sample=lambda: {"calls": xs, "supply_when": f"x % {mod} == {rem}", "outcomes": want[:6]})
 
 
+def check_overlay_rounds(rounds, rec=None):
+    """One long-lived Overlay instance; every round derives a with-block from it
+    (base.tweaking / base.rewriting supplying `a`, or the bare base) and calls f: what one round
+    supplied must not be supplied in a later round."""
+    import ptera
+    from ptera.overlay import Overlay
+
+    f, glb = PR.load(SEQ_SRC)
+    tf = ptera.tooled(f)
+    sel = ptera.select("f > a", env={"f": tf})
+    base = Overlay()
+    want, got = [], []
+    try:
+        for how, K, xs in rounds:
+            if how == "tweaking":
+                cm = base.tweaking({sel: K})
+            elif how == "rewriting":
+                cm = base.rewriting({sel: (lambda d, K=K: K)})
+            else:
+                cm = base
+            with cm:
+                for x in xs:
+                    want.append(("ret", K + x) if how != "bare" else ("exc", "PteraNameError"))
+                    try:
+                        got.append(("ret", tf(x)))
+                    except BaseException as e:  # noqa
+                        if isinstance(e, (KeyboardInterrupt, SystemExit)):
+                            raise
+                        got.append(("exc", type(e).__name__))
+    except BaseException as e:
+        if isinstance(e, (KeyboardInterrupt, SystemExit)):
+            raise
+        HY.force_global_clean()
+        raise PropertyViolation("run", f"overlay rounds harness raised {HY.describe_exc(e)}")
+    finally:
+        if HY.global_state_problems():
+            HY.force_global_clean()
+        PR.forget(glb)
+    if got != want:
+        i = next(k for k in range(len(want)) if got[k] != want[k])
+        raise PropertyViolation(
+            "sequence", f"one Overlay instance, rounds {rounds!r} (tweaking/rewriting supply `a`, bare supplies "
+                        f"nothing): outcome #{i} is {got[i]!r}, expected {want[i]!r}; all outcomes {got!r}",
+            extra={"bucket": "overlay-rounds"})
+    if rec is not None:
+        kinds = {r[0] for r in rounds}
+        rec.case(h64(repr(rounds)), "bare" in kinds and len(kinds) >= 2, {"mode:overlay-rounds"},
+                 sample=lambda: {"rounds": [list(r) for r in rounds], "outcomes": want[:6]})
+
+
 def replay(payload):
+    if payload.get("mode") == "overlay-rounds":
+        try:
+            check_overlay_rounds([(r[0], r[1], list(r[2])) for r in payload["rounds"]])
+        except PropertyViolation as v:
+            return [{"clause": v.clause, "detail": v.detail}]
+        return []
     if payload.get("mode") == "sequence":
         try:
             check_sequence(payload["xs"], payload["mod"], payload["rem"], payload["K"], set(payload["aud_before"]),
@@ -402,6 +468,12 @@ def strategy():
 
     @st.composite
     def cases(draw):
+        if draw(st.integers(0, 23)) == 0:
+            rounds = draw(st.lists(st.tuples(st.sampled_from(["tweaking", "rewriting", "bare", "bare"]),
+                                             st.sampled_from([0, 500, 7]),
+                                             st.lists(st.integers(0, 7), min_size=1, max_size=3)),
+                                   min_size=2, max_size=5))
+            return ("overlay-rounds", rounds)
         if draw(st.integers(0, 11)) == 0:
             xs = draw(st.lists(st.integers(0, 7), min_size=2, max_size=7))
             mod = draw(st.integers(1, 3))
@@ -451,13 +523,18 @@ def shard(cfg):
     rec = Recorder()
 
     def body(case):
+        if case[0] == "overlay-rounds":
+            return check_overlay_rounds(case[1], rec=rec)
         if case[0] == "sequence":
             return check_sequence(*case[1:], rec=rec)
         check_case(*case, rec=rec)
 
     n, v, herr = hyp_search(strategy(), body, seed=cfg["seed"] * 1000 + cfg["shard"], max_examples=cfg["examples"])
     res = rec.result()
-    if v is not None and v.case[0] == "sequence":
+    if v is not None and v.case[0] == "overlay-rounds":
+        res["violations"] = [violation_record(PROPERTY, v, {"mode": "overlay-rounds",
+                                                            "rounds": [list(r) for r in v.case[1]]})]
+    elif v is not None and v.case[0] == "sequence":
         _, xs, mod, rem, K, ab, aa = v.case
         res["violations"] = [violation_record(PROPERTY, v, {"mode": "sequence", "xs": xs, "mod": mod, "rem": rem, "K": K,
                                                             "aud_before": sorted(ab), "aud_after": sorted(aa)})]
